@@ -6,11 +6,7 @@ package c06
 import (
 	"fmt"
 	"os"
-	"sync"
 	"testing"
-	"time"
-
-	"github.com/vmware/go-ipfix/pkg/intermediate"
 
 	"pgregory.net/rapid"
 
@@ -26,7 +22,7 @@ func TestMain(m *testing.M) {
 	glue.LoadRegistry()
 	if rp := ev.LoadReplay(); rp != nil {
 		if rp.Phase == "slow_callback" {
-			ev.RunReplay(rp, runSlow)
+			ev.RunReplay(rp, aggh.RunSlow)
 		}
 		ev.RunReplay(rp, func(c aggh.XCase) *ev.Failure { return aggh.RunX(c, nil) })
 	}
@@ -169,95 +165,14 @@ func TestC06(t *testing.T) {
 	}, func(c aggh.XCase) *ev.Failure { return runRecorded("random", c) })
 }
 
-type scen struct {
-	Name     string `json:"name"`
-	ActiveMs int    `json:"active_ms"`
-	InactMs  int    `json:"inactive_ms"`
-	// RecordDuring: while flow 0's export callback blocks, another goroutine sends a record for flow 0
-	RecordDuring bool `json:"record_during,omitempty"`
-}
-
-func runSlow(sc scen) *ev.Failure {
-	fl := flows()
-	ap := aggh.New(time.Duration(sc.ActiveMs)*time.Millisecond, time.Duration(sc.InactMs)*time.Millisecond, nil, 1)
-	t0 := time.Now()
-	rc := func(fi int) error {
-		return ap.AggregateMsgByFlowKey(aggh.Message(fl, aggh.Rec{Flow: fi, Side: "S", Start: 1000, End: 2000, Tot: [4]uint64{1, 2, 1, 2}, Dlt: [4]uint64{1, 1, 1, 1}}))
-	}
-	if err := rc(0); err != nil {
-		return ev.Failf("%s: %v", sc.Name, err)
-	}
-	time.Sleep(time.Until(t0.Add(200 * time.Millisecond)))
-	if err := rc(1); err != nil {
-		return ev.Failf("%s: %v", sc.Name, err)
-	}
-	time.Sleep(time.Until(t0.Add(450 * time.Millisecond)))
-	var delivered []string
-	senderDone := make(chan error, 1)
-	sender := false
-	err := ap.ForAllExpiredFlowRecordsDo(func(k intermediate.FlowKey, r *intermediate.AggregationFlowRecord) error {
-		delivered = append(delivered, k.SourceAddress)
-		if k == fl[0].Key() {
-			if sc.RecordDuring && !sender {
-				// another goroutine (a worker) takes in a record for this very flow while its export
-				// is in progress; it may have to wait for the scan, and must then be applied normally
-				sender = true
-				go func() { senderDone <- rc(0) }()
-			}
-			time.Sleep(300 * time.Millisecond) // flow 1's deadline (t0+600ms) passes here
-		}
-		return nil
-	})
-	if err != nil {
-		return ev.Failf("%s: scan: %v", sc.Name, err)
-	}
-	if sender {
-		select {
-		case err := <-senderDone:
-			if err != nil {
-				return ev.Failf("%s: record for flow 0 sent during its export callback: %v", sc.Name, err)
-			}
-		case <-time.After(10 * time.Second):
-			return ev.Failf("%s: a record for flow 0 sent during its export callback was not taken in within 10 s of the scan's end", sc.Name)
-		}
-	}
-	if d := structural(ap); d != "" {
-		return ev.Failf("%s: after a scan whose callback for flow 0 took 300 ms (callbacks for %v): %s", sc.Name, delivered, d)
-	}
-	// all remaining deadlines pass; everything still held is delivered
-	ap.VerifShiftDeadlines(100 * time.Hour)
-	_, held := ap.VerifSnapshot()
-	n := 0
-	if err := ap.ForAllExpiredFlowRecordsDo(func(intermediate.FlowKey, *intermediate.AggregationFlowRecord) error { n++; return nil }); err != nil {
-		return ev.Failf("%s: second scan: %v", sc.Name, err)
-	}
-	if n != len(held) {
-		return ev.Failf("%s: %d flows were held after the slow scan, a scan after every deadline delivered %d", sc.Name, len(held), n)
-	}
-	if d := structural(ap); d != "" {
-		return ev.Failf("%s: after the second scan: %s", sc.Name, d)
-	}
-	return nil
-}
-
 // TestC06SlowCallback: real time passes inside one scan (the export callback blocks, as a network
 // export does) while another flow's deadline falls into the scan. Whatever the scan decides about
 // that flow, afterwards every held flow must be scheduled and every scheduled entry must refer to
 // a held flow, and a later scan after all deadlines delivers every flow that is still held. The
 // invariants do not depend on timing (no false alarm under load); only the sensitivity does.
 func TestC06SlowCallback(t *testing.T) {
-	scens := []scen{{Name: "active_deadline_falls_into_the_scan", ActiveMs: 400, InactMs: 60000}, {Name: "inactive_deadline_falls_into_the_scan", ActiveMs: 60000, InactMs: 400},
-		{Name: "record_for_the_flow_during_its_inactive_export", ActiveMs: 60000, InactMs: 400, RecordDuring: true}, {Name: "record_for_the_flow_during_its_active_export", ActiveMs: 400, InactMs: 60000, RecordDuring: true}}
-	fails := make([]*ev.Failure, len(scens))
-	var wg sync.WaitGroup
-	for si, sc := range scens {
-		wg.Add(1)
-		go func(si int, sc scen) {
-			defer wg.Done()
-			fails[si] = runSlow(sc)
-		}(si, sc)
-	}
-	wg.Wait()
+	scens := aggh.SlowScens()
+	fails := aggh.RunSlowAll(scens)
 	for si, sc := range scens {
 		rec.Case(ev.Hash(sc), true, "slow_callback", sc.Name)
 		rec.Sample("slow_callback", sc)
@@ -266,25 +181,6 @@ func TestC06SlowCallback(t *testing.T) {
 			t.Errorf("slow_callback: %s", fails[si].Msg)
 		}
 	}
-}
-
-// structural: the map/queue agreement of the statement, without a deadline model.
-func structural(ap *intermediate.AggregationProcess) string {
-	queue, held := ap.VerifSnapshot()
-	if len(queue) != len(held) {
-		return fmt.Sprintf("expiry queue has %d entries but %d flows are held", len(queue), len(held))
-	}
-	for i, e := range queue {
-		if e.Index != i || !e.InMap || !e.MapPointsHere {
-			return fmt.Sprintf("queue entry %d (%+v) does not refer to a held flow", i, e.Key)
-		}
-	}
-	for _, h := range held {
-		if !h.ItemInQueue {
-			return fmt.Sprintf("flow %s is held but not scheduled for any expiry: it can never expire", h.Key.SourceAddress)
-		}
-	}
-	return ""
 }
 
 // shrink removes operations while the case keeps failing (exhaustive failures are not shrunk by rapid).
